@@ -278,6 +278,10 @@ func (e *enc) instr(b *ssa.BasicBlock, ins ssa.Instruction) {
 							e.assume(fmt.Sprintf("(=> %s.c0 %s)", n, t))
 						}
 					}
+					if ks == "Iface" {
+						// a key found in a map is hashable
+						e.assume(fmt.Sprintf("(=> %s.c0 (not (uncomparable %s.c1)))", n, n))
+					}
 					if mapSupported(ks, vs) {
 						has, val := e.mapArrs(ks, vs)
 						m := e.val(rg.X)
@@ -990,6 +994,15 @@ func (e *enc) convert(b *ssa.BasicBlock, i *ssa.Convert) {
 		}
 	case sx == "F64" && sr == "ISort":
 		n := e.havoc(i)
+		// a conversion is a function of its operand (the same value converts to the same result)
+		if br != nil {
+			fn := fmt.Sprintf("f2i_%s", sname(br.Name()))
+			if !e.declared[fn] {
+				e.declared[fn] = true
+				e.decls = append(e.decls, fmt.Sprintf("(declare-fun %s (%s) %s)", fn, e.smtSort("F64"), e.isort()))
+			}
+			e.assume(fmt.Sprintf("(= %s (%s %s))", n, fn, x))
+		}
 		if e.bv && br != nil {
 			// defined when the truncated value is representable in the target type; otherwise
 			// implementation-defined (left free)
